@@ -89,6 +89,7 @@ fn main() {
                 "c11_attach" => ("C11", mt::part_c11_attach(tier)),
                 "c06_std" => ("C06", c06s::part_std(tier, false)),
                 "c08_exec" => ("C08", c08::part_exec(tier)),
+                "c16_vard" => ("C16", c06s::part_vard(tier)),
                 "c07_std" => ("C07", c06s::part_std(tier, true)),
                 "c09_real" => ("C09", mt::part_c09_real(tier)),
                 "c14_threads" => ("C14", mt::part_c14_threads(tier)),
@@ -237,6 +238,7 @@ fn run_check(id: &str, tier: Tier) -> i32 {
         "C16" => {
             let mut r = Report::new("C16", tier, "exploration");
             r.parts.push(c16::part_sweep(tier));
+            r.parts.push(c06s::part_vard(tier));
             finish(r)
         }
         "C19" => {
